@@ -1,6 +1,7 @@
 package core
 
 import (
+	"go/ast"
 	"go/token"
 	"go/types"
 	"strings"
@@ -519,4 +520,20 @@ func Unspill(v ssa.Value) ssa.Value {
 		return last
 	}
 	return v
+}
+
+// SourceName returns the name of the source variable an SSA value was assigned to (from debug references), or "".
+func SourceName(v ssa.Value) string {
+	refs := v.Referrers()
+	if refs == nil {
+		return ""
+	}
+	for _, r := range *refs {
+		if d, ok := r.(*ssa.DebugRef); ok {
+			if id, ok := d.Expr.(*ast.Ident); ok {
+				return id.Name
+			}
+		}
+	}
+	return ""
 }
